@@ -108,10 +108,19 @@ def run(rep):
     if wrongly or len(cans) not in a:
         raise tlc.MachineryError(f"canary failure: accepted {wrongly}; control accepted={len(cans) in a}")
     rep.extra.setdefault("canaries_rejected", []).extend(c[0] for c in cans)
+    # one Survey object rendered again and again between edits (SurveyObject.tla histories): at every render the pretty and the
+    # compact rendering are the same document - neither may lag behind the object's state
+    from harness.props import c02
+
+    c02.part_histories(rep, PROP)
 
 
 def replay(rep, case):
     c = case["case"]
+    if "history" in c:
+        from harness.props import c02
+
+        return c02.replay_history(rep, PROP, c)
     if c.get("writer"):
         o = _xml.run_writer({"dom": c["dom"]})
         acc, info = tlc.validate_traces("Trace_Xml", corpus._cfg("Trace_Xml.cfg", _xml.TRACE_CFG), [o["trace"]], shards=1, env={"PROP": PROP}, tag="replay")
